@@ -252,12 +252,13 @@ class Interp:
             elif k == "unop":
                 x = self.operand(rv["x"], env, mem)
                 if rv["op"] == "Not": val = ~x if isinstance(x, BF) else BV([~q for q in x.bits])
+                elif rv["op"] == "PtrMetadata" and isinstance(x, View): val = BV.const(1 << 20, 64)   # length of a buffer view: "long enough" (bounds checks are not E3's business)
             elif k == "cast":
                 x = self.operand(rv["x"], env, mem)
                 if rv["kind"] == "IntToInt" and isinstance(x, BV): val = x.zext(self.width(rv["ty"]))
                 elif rv["kind"] == "IntToInt" and isinstance(x, BF): val = BV([x]).zext(self.width(rv["ty"]))
                 else: val = x
-            elif k == "ref":
+            elif k in ("ref", "rawptr"):
                 val = self.read(rv["place"], env, mem) if rv["place"]["proj"] and rv["place"]["proj"][-1]["k"] != "deref" else env.get(rv["place"]["local"])
                 if rv["place"]["proj"] and rv["place"]["proj"][-1]["k"] == "deref": val = env.get(rv["place"]["local"])
                 if isinstance(val, str) or val is None:
@@ -355,6 +356,11 @@ class Interp:
                     r = bv_ite(cnd, val_, _dflt(val_)) if isinstance(val_, BV) else ite(cnd, val_, _dflt(val_))
             elif path.startswith("core::num::<impl u") and path.rsplit("::", 1)[-1] in ("wrapping_sub", "wrapping_add") and isinstance(args[0], BV) and isinstance(args[1], BV):
                 r = self.binop("Sub" if path.endswith("wrapping_sub") else "Add", args[0], args[1])
+            elif path == "core::num::<impl u8>::eq_ignore_ascii_case" and len(args) == 2:
+                a0 = mem[args[0].arr][args[0].idx] if isinstance(args[0], CellRef) else args[0]
+                a1 = mem[args[1].arr][args[1].idx] if isinstance(args[1], CellRef) else args[1]
+                lo_ = U8_FNS["to_ascii_lowercase"][1]
+                r = bf_from_fn([a0, a1], lambda x, y: lo_(x) == lo_(y)) if isinstance(a0, BV) and isinstance(a1, BV) else None
             elif path.startswith("core::num::<impl u8>::") and path.rsplit("::", 1)[-1] in U8_FNS and (isinstance(args[0], BV) or isinstance(args[0], CellRef)):
                 a0 = mem[args[0].arr][args[0].idx] if isinstance(args[0], CellRef) else args[0]
                 fn_ = U8_FNS[path.rsplit("::", 1)[-1]]
